@@ -17,14 +17,14 @@ structure Case where
   nt    : Bool := true        -- counted as non-trivial
   tag   : String := ""        -- generator stratum, for the coverage histogram
 
-def Case.line (c : Case) (prop : String) (id : Nat) : String :=
-  jobj ([("id", jnat id), ("prop", jstr prop), ("do", jstr c.op)] ++ c.args ++
-    [("model", jstr c.model)] ++ (match c.spec with | some s => [("spec", jstr s)] | none => []) ++
-    [("cls", jstr c.cls), ("nt", jbool c.nt), ("tag", jstr c.tag)])
-
 /-- escape for embedding canonical JSON text inside a JSON string -/
 def jesc (s : String) : String :=
   s.foldl (fun acc c => if c = '"' then acc ++ "\\\"" else if c = '\\' then acc ++ "\\\\" else acc.push c) ""
+
+def Case.line (c : Case) (prop : String) (id : Nat) : String :=
+  jobj ([("id", jnat id), ("prop", jstr prop), ("do", jstr c.op)] ++ c.args ++
+    [("model", jstr (jesc c.model))] ++ (match c.spec with | some s => [("spec", jstr (jesc s))] | none => []) ++
+    [("cls", jstr c.cls), ("nt", jbool c.nt), ("tag", jstr c.tag)])
 
 def hex32 (v : Nat) : String := hex (beBytes 4 v)
 
